@@ -419,6 +419,7 @@ def run(tier):
     res.floor("C08.R2", 5)
     rule_R3(res, prog)
     rule_R4(res, prog)
+    rule_R1i(res, prog, cg)
     return res.finish()
 
 
@@ -704,3 +705,47 @@ def rule_R4(res, prog):
     res.instance(rid, "matrixUnlockSessionTicket: every use of `%s` lies behind %s == matrixSessionTicketLen()" % (pin_p["n"], len_p["n"]),
                  esc is None, finding=f_)
     res.floor(rid, 1)
+
+
+def rule_R1i(res, prog, cg):
+    """Message bodies that parseSSLHandshake parses inline (it is excluded from R1 as a whole): the zone analysis is run
+    on the function and the obligations inside the switch arm of the listed message types must all be proven.  Listed
+    are the arms that are fully provable today: HelloVerifyRequest (DTLS cookie).  (The NewSessionTicket arm relies on the
+    message-length fact established before the switch, which the per-function run does not carry; it is not listed.)"""
+    rid = "C08.R1i"
+    res.rule(rid, "inline message parsers of parseSSLHandshake (HelloVerifyRequest): every wire-cursor access in the arm is covered")
+    ARMS = ["SSL_HS_HELLO_VERIFY_REQUEST"]
+    fn = prog.fn("parseSSLHandshake")
+    ca = CursorAnalysis(prog, cg, fn, entry_pairs=[(1, 2)])
+    ca.run()
+    dom = cu.dominators(fn)
+    sws = [b for b in fn.blocks if (b.get("term") or {}).get("k") == "switch" and
+           any(m.get("k") == "mem" and m.get("f") == "hsState" for m in walk(b["term"].get("c") or {}))]
+    if not sws:
+        raise AnalysisBroken("C08.R1i: switch over ssl->hsState not found in parseSSLHandshake")
+    ln2b = {}
+    for b in fn.blocks:
+        for i, ln, x in cu.block_exprs(b):
+            ln2b.setdefault(ln, set()).add(b["id"])
+    n = 0
+    for name in ARMS:
+        cv = prog.const(name)
+        heads = [s_.get("b") for sw in sws for s_ in sw["succ"] if s_.get("case") == cv]
+        if not heads:
+            raise AnalysisBroken("C08.R1i: no case %s in parseSSLHandshake" % name)
+        per = {}
+        for o in ca.obligations:
+            if any(h in dom[b_] for h in heads for b_ in ln2b.get(o.ln, ())):
+                per.setdefault((o.ln, o.what), []).append(o)
+        for (ln, what), obs in sorted(per.items()):
+            n += 1
+            ok = all(o.ok for o in obs)
+            o = obs[0] if ok else [x for x in obs if not x.ok][0]
+            f_ = None
+            if not ok:
+                f_ = Finding(PROP, rid, fn.name, "%s not covered in the %s arm" % (what.split("(")[0].strip()[:30], name),
+                             "%s:%s parseSSLHandshake(), case %s: %s needs %s byte(s) available but only [%s] is proven on every path to it: "
+                             "a truncated message makes this access run past the end of the received data" % (
+                                 fn.relfile, ln, name, what, o.need, o.detail[:140]), file=fn.relfile, line=ln)
+            res.instance(rid, "parseSSLHandshake:%s [%s] %s" % (ln, name, what), ok, finding=f_)
+    res.floor(rid, 4)
